@@ -108,18 +108,23 @@ impl<const N: usize, T: Ord> SortedBuffer<N, T> {
         }
     }
     /// Adds a value to the buffer, keeping it sorted.
+    ///
+    /// If the buffer is full, the smallest element is dropped (it keeps the `N` largest).
     pub fn add(&mut self, value: T) {
-        let pos = self.buffer.iter().position(|e| match e {
-            None => true,
-            Some(v) => &value <= v,
-        });
         let len = self.buffer.iter().position(|e| e.is_none()).unwrap_or(N);
-        if let Some(pos) = pos {
-            if pos < len {
-                // Move remaining elements to make space.
-                self.buffer[pos..len].rotate_right(1);
-            }
+        // Position of the first element that is not smaller than the value
+        let pos = self.buffer[..len]
+            .iter()
+            .position(|e| e.as_ref().is_some_and(|v| &value <= v))
+            .unwrap_or(len);
+        if len < N {
+            // Move remaining elements to make space.
+            self.buffer[pos..=len].rotate_right(1);
             self.buffer[pos] = Some(value);
+        } else if pos > 0 {
+            // Drop the smallest element and move the smaller ones down.
+            self.buffer[..pos].rotate_left(1);
+            self.buffer[pos - 1] = Some(value);
         }
     }
     pub fn iter(&self) -> impl DoubleEndedIterator<Item = &T> {
